@@ -104,6 +104,13 @@ def run(ctx):
         except H.Stuck as e:
             res.failures.append({"what": "harness could not drive the real hub: %s" % e, "kf": None,
                                  "input": {"progs": empty_progs, "schedule": sched}})
+    for hp in H.history_pairs():   # the delivery mode of a key changes across a disconnect / reconnect
+        for pol in (H.preemptive_policy({}, []), H.forced([0] * 12 + [1] * 40 + [0, 1] * 60)):
+            try:
+                corpus.append(H.run_case(hp, pol))
+            except H.Stuck as e:
+                res.failures.append({"what": "harness could not drive the real hub: %s" % e, "kf": None,
+                                     "input": {"progs": hp}})
     for sched in ([1, 1] + [0] * 7 + [1, 1] + [0] * 3 + [1] * 3,          # the recorded F20 schedule (unfixed order)
                   [1, 1, 1, 1] + [0] * 9 + [1] * 3,                          # callbacks, publish, then A runs
                   [1, 1, 1] + [0] * 3 + [1] + [0] * 6 + [1] * 3,            # B publishes only open, A connects+sends
@@ -148,6 +155,7 @@ def run(ctx):
         rng.shuffle(pairs)
         core = [((0, ("s", "s"), 0), (1, (), 0)), ((1, ("s", "rn"), 1), (1, ("s",), 1)),
                 ((0, ("s", "s"), 1), (0, ("rb", "rn"), 0)), ((0, ("rn", "s"), 0), (0, ("rb", "s"), 1))]
+        core = [("progs", hp) for hp in H.history_pairs()] + core
         if ctx.thorough:
             budget, chosen = 420, core + pairs
         else:
